@@ -220,7 +220,7 @@ def validate_traces(trace_module, cfg, traces, timeout=1800, extra_env=None):
         env.update(extra_env)
     r = run_tlc(trace_module, cfg, workers=1, env=env, timeout=timeout)
     res = {}
-    for m in re.finditer(r'<<"TRACE", (\d+), (\d+), (\d+), (\{[^}]*\})>>', r.out):
+    for m in re.finditer(r'<<\s*"TRACE",\s*(\d+),\s*(\d+),\s*(\d+),\s*(\{[^}]*\})\s*>>', r.out):
         res[int(m.group(1))] = dict(matched=int(m.group(2)), wanted=int(m.group(3)),
                                     devs=parse_tla_value(m.group(4)))
     out = []
